@@ -11,8 +11,9 @@
 (*                            discovery answers (self.interfaces keeps it)                                *)
 (*  Dev_ShutdownLost          a shutdown request was made and returned, the node goes on serving          *)
 (*  Dev_RestartLost           an accepted restart request never leads to a new generation (flag latched)  *)
-(*                            (both only where a request met a node that was starting, or after another   *)
-(*                            deviation - a request made while the node simply serves is never excused)   *)
+(*                            (both only where a request met a node that was starting, where a restart    *)
+(*                            and a shutdown request overlap, or after another deviation - a request made  *)
+(*                            while the node simply serves is never excused)                                *)
 (*  Dev_RequestRaises_<Exc>   restart() / shutdown() raise (AttributeError before self.interfaces exists, *)
 (*                            RuntimeError when an interface registers while the dictionary is iterated)   *)
 (*  Dev_Revived               restart() after shutdown() returned starts a new generation                  *)
@@ -56,7 +57,7 @@ DevFor(s, e, why) ==
     [] why = "G2._interfaces is not what listens" /\ Listening(s) \subseteq ToSet(e.ann)
               /\ (s.stopDone \/ s.ishReq # {}) -> Dev_StaleAnnounce(s, e)
     [] why = "G2.announced a dead port" /\ (s.stopDone \/ s.ishReq # {}) -> Dev_StaleAnnounce(s, e)
-    [] why = "S2.shutdown lost, run() goes on" /\ (s.early \/ s.devs # {}) -> Dev_ShutdownLost(s, e)
+    [] why = "S2.shutdown lost, run() goes on" /\ (s.early \/ s.raced \/ s.devs # {}) -> Dev_ShutdownLost(s, e)
     [] why = "R2.accepted restart never happened" /\ (s.early \/ s.devs # {}) -> Dev_RestartLost(s, e)
     [] why = "E1.request raises" -> Dev_RequestRaises(s, e)
     [] why = "S1.generation after shutdown()" /\ (s.gen = 0 \/ s.ph = "hooked") /\ s.disc # "open"
@@ -65,7 +66,8 @@ DevFor(s, e, why) ==
     [] why = "G5.old responder still open" -> Dev_ResponderLeak(s, e)
     [] why = "S2.responder left after the end" -> Dev_ResponderLeak(s, e)
     [] why = "G5.boot before previous is down" /\ s.ph = "stopped" /\ AllMods(s, "down")
-              /\ s.hooks = 0 /\ RestartWanted(s) -> Dev_NoHook(s, e)
+              /\ s.hooks = 0 /\ (RestartWanted(s) \/ s.shutDone)
+         -> IF s.shutDone THEN Dev_Revived(s, e) ELSE Dev_NoHook(s, e)
     [] why = "exc.run() raises" /\ e.exc \in {"KeyboardInterrupt", "RuntimeError", "AttributeError"}
               /\ (\E x \in s.reqGen : x[1] = "sig") /\ s.ph \in {"init", "boot", "ready"}
               -> Dev_InterruptedStartup(s, e)
